@@ -603,6 +603,8 @@ hwloc_backend_synthetic_init(struct hwloc_synthetic_backend_data_s *data,
 	if (!strncmp(pos, "Tile", 4) || !strncmp(pos, "Module", 6)) {
 	  /* possible future types */
 	  type = HWLOC_OBJ_GROUP;
+	  /* hwloc_type_sscanf() failed and didn't fill attrs */
+	  attrs.group.depth = (unsigned) -1;
 	} else {
 	  /* FIXME: allow generic "Cache" string? would require to deal with possibly duplicate cache levels */
 	  if (verbose)
